@@ -296,6 +296,7 @@ def run(ctx):
 
     d7_error_latch(db, rep)
     snapshot_slots(db, rep, "D5c-SNAPSHOT-SLOTS")
+    d9_acc_index(db, rep)
     # D8: the executor a generated wrapper hands to a detached code object carries n and (for 2-D) m: emulation, the fallback
     # of every wrapper, reads them from there (shared with C07 D1)
     import importlib as _il
@@ -371,3 +372,24 @@ def snapshot_slots(db, rep, rule):
                       line=x.line)
     if n < 2:
         raise AnalysisBroken("only %d reads of the A1/A2 snapshot slots found in orcexecutor.c" % n)
+
+
+def d9_acc_index(db, rep):
+    """D9: ex->accumulators[] has one entry per accumulator variable, numbered from 0, while accumulators are variables
+    ORC_VAR_A1 .. A4.  Every run-time subscript of that array must therefore be a variable number minus ORC_VAR_A1
+    (sibling agreement between the accessors and the emulator); the raw variable number reads far past the array."""
+    from flow import linear
+    a1 = db.enum("ORC_VAR_A1")
+    n = 0
+    for f in db.tu("orcexecutor").main_functions():
+        for x in f.walk():
+            if x.k == "ArraySubscriptExpr" and (access_path(x.c[0]) or "").endswith("->accumulators") and strip_casts(x.c[1]).v is None:
+                l = linear(x.c[1])
+                n += 1
+                rep.saw(f)
+                rep.check(l is not None and l[0] is not None and l[1] == -a1, "D9-ACC-INDEX", where(f), "accumulators[%s]" % unparse(x.c[1])[:40],
+                          "subscript is a variable number minus ORC_VAR_A1",
+                          "%s indexes ex->accumulators[] with `%s`, not with <variable number> - ORC_VAR_A1: for an accumulator variable (number %d and up) that "
+                          "is outside the %d-entry array" % (f.name, unparse(x.c[1])[:50], a1, db.field("OrcExecutor", "accumulators")["alen"]), line=x.line)
+    if n < 3:
+        raise AnalysisBroken("only %d run-time subscripts of ex->accumulators[] found" % n)
